@@ -2,11 +2,24 @@
   C01 — both simulation backends compute the state the circuit defines.
 
   The model `stabRun` is `CompilerBase.compile` + `StabilizerCompiler.compile_one_gate` on the Clifford-tableau model whose
-  operations are proved in C07 to implement Pauli-group (textbook) semantics.  The density-matrix backend is tied to the same
-  model numerically by the correspondence run (rho(model state) vs its matrix, 1e-9) — that half is testing, not proof.
+  operations are proved in C07 to implement Pauli-group (textbook) semantics.
+
+  The density-matrix backend: `DMH.dmRunH` (Proofs/DMCompileH.lean) is the compile loop of `DensityMatrixCompiler` read
+  over complex matrices indexed by bit strings (`apply_unitary` with hermitianize, `apply_measurement` with the clipped
+  probabilities / the three settings / the `np.isclose` threshold / division by the conditional probability,
+  `apply_measurement_controlled_gate`, the reset Kraus pair).  `backends_agree` proves, for every circuit, register mix,
+  setting and script, that it returns `ρ(T) = ∏ (1 + g_i)/2` for the tableau `T` the stabilizer loop returns, with the same
+  classical record.  What remains testing on this side: that the floating-point numpy code computes what `dmRunH` denotes
+  (compared per circuit at 1e-8, and the builders exhaustively for n ≤ 4), see the note before `backends_agree`.
 -/
 import GraphiqModel.Proofs.Circuit
 import GraphiqModel.Proofs.Clifford1
+import GraphiqModel.Proofs.DMCompileH
+import GraphiqModel.Proofs.DMCompileExec
+import GraphiqModel.Proofs.DMCompileRef
+import GraphiqModel.Proofs.HilbertBridgeVec
+import GraphiqModel.Proofs.HilbertBridgeKronExec
+import GraphiqModel.Proofs.HilbertBridgeCommute
 namespace Graphiq.C01
 open Graphiq Graphiq.PRow Graphiq.Tab
 
@@ -62,6 +75,26 @@ theorem record_receives_outcome (np n : Nat) (d : Det) (s s' : RunState) (q : QR
   · injection h with h; rw [← h]; rfl
   · cases h
 
+/-- **The classical record equals the outcomes, whole run**: the values written to the classical registers are, in
+    order, exactly the outcomes of the measurements executed (every measuring operation — Z-measurement, classical
+    CNOT/CZ, measure-and-reset — writes its own outcome), one randomness flag per outcome. -/
+theorem record_equals_outcomes (ne np : Nat) (d : Det) (script : List Bool) (ops : List COp) (s : RunState)
+    (h : stabRun ne np d script ops = some s) : s.writes.map (·.2) = s.outs ∧ s.rand.length = s.outs.length :=
+  DMH.stabRun_book ne np d script ops s h
+
+/-- **Each measurement setting, whole run** ("forced 0, forced 1, probabilistic conditioned on the outcomes actually
+    drawn"): with `randOuts s` = the outcomes of the random measurements in order and `nRand s` their number —
+    forced 0: all of them are 0 and the script is untouched; forced 1: all are 1; probabilistic: they are the first
+    `nRand s` drawn bits in order and exactly these were consumed. -/
+theorem settings_whole_run (ne np : Nat) (d : Det) (script : List Bool) (ops : List COp)
+    (hwf : ∀ op, op ∈ ops → op.WF np) (s : RunState) (h : stabRun ne np d script ops = some s) :
+    (d = .zero → s.script = script ∧ ∀ o, o ∈ DMH.randOuts s → o = false) ∧
+    (d = .one → s.script = script ∧ ∀ o, o ∈ DMH.randOuts s → o = true) ∧
+    (d = .prob → s.script = script.drop (DMH.nRand s) ∧
+        DMH.randOuts s = (List.range (DMH.nRand s)).map fun i => script.getD i false) := by
+  have h2 := (DMH.stabRun_drawn ne np d script ops hwf s h).2
+  refine ⟨fun e => ?_, fun e => ?_, fun e => ?_⟩ <;> subst e <;> exact h2
+
 /-- **Wrapper expansion order**: a wrapped list is executed last-listed-first — the same order in which the matrix product of
     the list (C20 `wrapper_denotes_product`) acts on a state -/
 theorem wrapper_applies_last_listed_first (np n : Nat) (d : Det) (s : RunState) (gs : List Cliff.Gen) (g : Cliff.Gen) (q : QReg)
@@ -70,10 +103,151 @@ theorem wrapper_applies_last_listed_first (np n : Nat) (d : Det) (s : RunState) 
       some ((gs.reverse.foldl (fun t g' => gen1 t g' (qIndex np q)) (gen1 s.t g (qIndex np q))).norm) := by
   simp [stepOp, hq, List.reverse_append]
 
-/- Not a theorem of this development (kept visible here as a comment because it needs an exact density-matrix semantics):
-   for every circuit the matrix produced by the density-matrix backend equals ∏(1+g_i)/2 over the model's stabilizers g_i.
-   It is compared numerically (1e-9) on every correspondence circuit with n_quantum ≤ 6; the identification of Pauli-group
-   semantics with Hilbert-space semantics (tensor lifting of the kernel-checked one-qubit bridge of C20) is cited. -/
+/-! ### The density-matrix backend agrees with the stabilizer backend (every circuit, every n)
+
+   `DMH.dmRunH` is a *mathematical* reading of the Python (complex matrices indexed by `Fin n → Bool`; `oneQ`, `ctrlG`,
+   `projZ`, `resetKraus` are shown in Proofs/HilbertKron.lean / HilbertBridgeOps.lean to be the Kronecker chains of
+   `get_one_qubit_gate`, `get_two_qubit_controlled_gate`, `projectors_zbasis`, `get_reset_qubit_kraus`).  It is exact:
+   what it cannot exhibit is floating-point rounding in the numpy code (the residue of D39: a probability that should be
+   0 coming out as 1e-17 stays below the `isclose` threshold 1e-8, which is part of the model; a rounding error above
+   the threshold is not).  The per-circuit numerical comparison of the real `DensityMatrixCompiler` with `ρ(model tableau)`
+   stays in the harness as the tie of this reading to the code. -/
+
+open Graphiq.DMH Graphiq.Hilbert in
+/-- **Both backends compute the same state and record** — full statement.  For every circuit over the whole operation
+    alphabet (gates, wrappers, Z-measurement, classically controlled gates, measure-and-reset), any length, any mix of
+    registers, each measurement setting and every script of drawn bits: the density-matrix compile loop fails exactly
+    when the stabilizer compile loop fails (a qubit index out of range), and otherwise returns the density matrix
+    `ρ(T) = ∏_i (1 + g_i)/2` of the tableau `T` the stabilizer loop returns, the same register writes, the same
+    outcomes, the same remaining drawn bits, and "both outcomes had positive probability" = "the tableau measurement was
+    random" for every measurement executed. -/
+theorem backends_agree (ne np : Nat) (d : Det) (script : List Bool) (ops : List COp)
+    (hwf : ∀ op, op ∈ ops → op.WF np) :
+    dmRunH ne np d script ops = (stabRun ne np d script ops).map (hstate (ne + np)) :=
+  dmRunH_eq_map ne np d script ops hwf
+
+open Graphiq.DMH Graphiq.Hilbert in
+/-- the same, spelled out for a run that returns: state, record, outcomes, final register values -/
+theorem backends_agree_on_return (ne np nc : Nat) (d : Det) (script : List Bool) (ops : List COp)
+    (hwf : ∀ op, op ∈ ops → op.WF np) (s : RunState) (h : stabRun ne np d script ops = some s) :
+    ∃ r : HState (ne + np), dmRunH ne np d script ops = some r ∧
+      r.ρ = rho (ne + np) (STab.ofTab s.t) ∧ r.writes = s.writes ∧ r.outs = s.outs ∧ r.script = s.script ∧
+      r.rand = s.rand ∧ finalRecord nc r.writes = finalRecord nc s.writes :=
+  ⟨hstate (ne + np) s, dmRunH_eq_stab ne np d script ops hwf s h, rfl, rfl, rfl, rfl, rfl, rfl⟩
+
+open Graphiq.DMH Graphiq.Hilbert in
+/-- **with `initial_state=`**: from the density matrix of any valid tableau with real stabilizer rows (every tableau the
+    API produces, C07 `history_stab_real`) the two compile loops agree in the same way -/
+theorem backends_agree_from (t0 : Tab) (hv : t0.Valid) (hr : t0.StabReal) (np : Nat) (d : Det) (script : List Bool)
+    (ops : List COp) (hwf : ∀ op, op ∈ ops → op.WF np) (s : RunState) (h : stabRunFrom t0 np d script ops = some s) :
+    dmRunFromH (rho t0.n (STab.ofTab t0)) np d script ops = some (hstate t0.n s) :=
+  dmRunFromH_eq_stab t0 hv hr np d script ops hwf s h
+
+open Graphiq.DMH in
+/-- both compile loops return on every circuit whose register indices are in range -/
+theorem compile_returns (ne np : Nat) (d : Det) (script : List Bool) (ops : List COp)
+    (hr : ∀ op, op ∈ ops → COp.InRange np (ne + np) op) : ∃ s, stabRun ne np d script ops = some s :=
+  stabFold_total np (ne + np) d ops hr _
+
+open Graphiq.DMH Graphiq.Hilbert in
+/-- **The probabilities the density-matrix backend computes are exact**: on the state of any valid tableau, `tr(ρ Π_o)`
+    is ½ for both outcomes when a stabilizer has an X on the qubit (the tableau's random branch) and 1 / 0 for the
+    reported / the other outcome otherwise — so the thresholds `np.isclose(p, 0)` and `p / Σp` of `apply_measurement`
+    select the branch the tableau takes. -/
+theorem dm_probabilities_exact (t : Tab) (hv : t.Valid) (hr : t.StabReal) (q : Nat) (hq : q < t.n) :
+    (∀ p, t.pivot q = some p → ∀ o, Matrix.trace (rho t.n (STab.ofTab t) * projZ t.n q o) = 1 / 2) ∧
+    (t.pivot q = none →
+      Matrix.trace (rho t.n (STab.ofTab t) * projZ t.n q (t.measScratch q).r) = 1 ∧
+      Matrix.trace (rho t.n (STab.ofTab t) * projZ t.n q (!(t.measScratch q).r)) = 0) := by
+  refine ⟨fun p hp o => ?_, fun hp => ?_⟩
+  · rw [projZ_eq _ _ hq]; exact prob_random t hv hr q p o hq hp
+  · rw [projZ_eq _ _ hq, projZ_eq _ _ hq]; exact prob_det t hv hr q hq hp
+
+open Graphiq.DMH Graphiq.Hilbert in
+/-- **Forced outcomes tolerate rounding** (what the repair of D39 provides): under forced 0 / forced 1, if the two
+    probabilities the density-matrix backend *computes* are within `1e-8` of the exact `tr(ρ Π_o)` clipped at 0, its
+    `np.isclose` rule still reports the outcome of the stabilizer backend's measurement. -/
+theorem forced_outcome_tolerates_rounding (s : RunState) (hv : s.t.Valid) (hr : s.t.StabReal) (d : Det) (hd : d ≠ .prob)
+    (q : Nat) (hq : q < s.t.n) (q0 q1 : ℝ)
+    (h0 : |q0 - probOf (rho s.t.n (STab.ofTab s.t)) (projZ s.t.n q false)| ≤ 1 / 100000000)
+    (h1 : |q1 - probOf (rho s.t.n (STab.ofTab s.t)) (projZ s.t.n q true)| ≤ 1 / 100000000) :
+    (outcomeOf d q0 q1 s.script).1 = (s.measure d q).2 := by
+  rw [outcomeOf_forced_robust d hd _ _ q0 q1 s.script (probOf_tab_cases s.t hv hr q hq) h0 h1]
+  have h := measureH_tab s hv hr d q hq
+  rw [← measureH_out]
+  exact congrArg (fun x => x.2.1) h
+
+open Graphiq.DMH Graphiq.Hilbert in
+/-- the matrix the density-matrix backend returns is a pure state: Hermitian, idempotent, **trace 1** -/
+theorem dm_result_is_pure_state (ne np : Nat) (d : Det) (script : List Bool) (ops : List COp)
+    (hwf : ∀ op, op ∈ ops → op.WF np) (r : HState (ne + np)) (h : dmRunH ne np d script ops = some r) :
+    Matrix.conjTranspose r.ρ = r.ρ ∧ r.ρ * r.ρ = r.ρ ∧ Matrix.trace r.ρ = 1 := by
+  rw [backends_agree ne np d script ops hwf] at h
+  cases hs : stabRun ne np d script ops with
+  | none => rw [hs] at h; cases h
+  | some s =>
+    rw [hs] at h
+    injection h with h
+    rw [← h]
+    exact hstate_pure (ne + np) s (stabRun_inv ne np d script ops hwf s hs)
+
+open Graphiq.DMX Graphiq.Hilbert in
+/-- **The executable exact model of the density-matrix backend agrees with the stabilizer model** — the model that the
+    correspondence runs drive against the real `DensityMatrixCompiler` (`Noise.compileDM`, noise simulation off: `Mat`
+    over ℚ[i] with numpy indices, Kronecker-built gate matrices, projective measurement, classically controlled gates,
+    measure-and-reset).  For every circuit (translated to its unwrapped operation sequence `trOps`), every register mix
+    and both forced settings: whenever the stabilizer compile loop returns `s`, `compileDM` returns a matrix `m` of size
+    `2^(ne+np)` with `m[idx a, idx b] = ρ(s.t) a b` for all basis strings (`idx` = big-endian numpy index, photons
+    first), and its classical registers are the final record of `s`. -/
+theorem executable_dm_model_agrees (ne np nc : Nat) (det : Bool) (script : List Bool) (ops : List COp)
+    (hwf : ∀ op, op ∈ ops → op.WF np) (s : RunState) (h : stabRun ne np (detOf det) script ops = some s) :
+    ∃ m : Mat, Noise.compileDM false ne np nc det (trOps ops)
+        = .ok { ρ := some m, creg := (finalRecord nc s.writes).map fun b => if b then 1 else 0 } ∧
+      m.n = 2 ^ (ne + np) ∧
+      ∀ a b : Bits (ne + np), gqC (m.e (idx (ne + np) a) (idx (ne + np) b)) = rho (ne + np) (STab.ofTab s.t) a b := by
+  obtain ⟨m, e, hrep⟩ := compileDM_eq_stab ne np nc det script ops hwf s h
+  rw [regsOf_eq_finalRecord] at e
+  exact ⟨m, e, hrep.1, hrep.2⟩
+
+open Graphiq.DMX in
+/-- the same inside the executable world: `compileDM`'s matrix is, entry by entry, the executable
+    `stabilizerDensity` (`∏ (1 + (−1)^{r_k} g_k)/2` over ℚ[i]) of the stabilizer run's tableau -/
+theorem executable_dm_model_equals_stabilizer_density (ne np nc : Nat) (det : Bool) (script : List Bool) (ops : List COp)
+    (hwf : ∀ op, op ∈ ops → op.WF np) (s : RunState) (h : stabRun ne np (detOf det) script ops = some s) :
+    ∃ m : Mat, Noise.compileDM false ne np nc det (trOps ops)
+        = .ok { ρ := some m, creg := (finalRecord nc s.writes).map fun b => if b then 1 else 0 } ∧
+      Mat.EqOn m (DM.stabilizerDensity s.t) :=
+  compileDM_eq_stabilizerDensity ne np nc det script ops hwf s h
+
+open Graphiq.Hilbert in
+/-- **The executable model's matrix builders are the literal numpy constructions** (`Mat.kron` = `np.kron`, `Mat.eye` =
+    `np.eye`, `reduceKron` = `functools.reduce(np.kron, ·)`), every `n`, every position, as equalities of executable
+    matrices: `get_one_qubit_gate` = `kron(kron(I, g), I)`; `get_two_qubit_controlled_gate` = `eye + K/2` with the
+    five-factor chain `K` of the branch `c < t` resp. `c > t`; `projectors_zbasis` = `reduce(kron, [P_s at q, I₂ else])`;
+    the initial state = `reduce(kron, n·[|0⟩⟨0|])`.  (The model writes them in closed form with index arithmetic.) -/
+theorem executable_builders_are_the_literal_kronecker_constructions :
+    (∀ n q (g : Mat), g.n = 2 → n ≠ 1 →
+      Mat.EqOn (DM.getOneQubitGate n q g) (Mat.kron (Mat.kron (Mat.eye (DM.pow2 q)) g) (Mat.eye (DM.pow2 (n - q - 1))))) ∧
+    (∀ n c t (g : Mat), c < n → t < n → c ≠ t → g.n = 2 →
+      ∃ m, DM.getTwoQubitControlledGate n c t g = .ok m ∧ Mat.EqOn m (literalCtrl n c t g)) ∧
+    (∀ n q, q < n → ∃ p0 p1, DM.projectorsZ n q = .ok (p0, p1) ∧
+      Mat.EqOn p0 (reduceKron ((List.range n).map fun i => if i = q then Mat.proj0 else Mat.id2)) ∧
+      Mat.EqOn p1 (reduceKron ((List.range n).map fun i => if i = q then Mat.proj1 else Mat.id2))) ∧
+    (∀ m, Mat.EqOn (⟨DM.pow2 (m + 1), fun i j => if i = 0 ∧ j = 0 then 1 else 0⟩ : Mat)
+      (reduceKron (List.replicate (m + 1) Mat.proj0))) :=
+  ⟨fun n q g hg hn => getOneQubitGate_eq_kron n q g hg hn,
+   fun n c t g hc ht hct hg => getTwoQubitControlledGate_eq_literal n c t hc ht hct g hg,
+   fun n q hq => projectorsZ_eq_literal n q hq,
+   fun m => rho0_eq_literal m⟩
+
+/-- **A reset leaves the measured qubit in |0⟩, density-matrix side**: on a qubit with a definite Z value (which the
+    control of a measure-and-reset has after its measurement) the Kraus pair `|0⟩⟨0|, |0⟩⟨1|` of
+    `get_reset_qubit_kraus` is exactly `reset_z` of the stabilizer backend. -/
+theorem reset_channel_is_reset_z (t : Tab) (hv : t.Valid) (hr : t.StabReal) (q : Nat) (hq : q < t.n)
+    (hp : t.pivot q = none) (o : Bool) :
+    Hilbert.applyChannel (Hilbert.rho t.n (STab.ofTab t)) (Hilbert.resetKraus t.n q)
+      = Hilbert.rho t.n (STab.ofTab (t.resetZ q false o)) :=
+  Hilbert.resetChannel_det t hv hr q hq hp o
 
 /-! ### Non-vacuity: a 1-emitter 2-photon circuit with a measure-and-reset, both forced outcomes -/
 def demo : List COp :=
@@ -88,5 +262,145 @@ example : ∀ op, op ∈ demo → op.WF 2 := by
   intro op h
   simp only [demo, List.mem_cons, List.mem_nil_iff, or_false] at h
   rcases h with h | h | h | h | h | h <;> subst h <;> simp [COp.WF, qIndex]
+
+/-! ### Both backends compute the state *textbook circuit semantics* defines
+
+   `DMRef.refRunH` (Proofs/DMCompileRef.lean) is a specification written independently of either backend's code: all
+   registers start in |0⟩, photons before emitters, `ρ ↦ UρU†` with the textbook unitaries (a wrapper = the matrix
+   product of its list), Born-rule Z-measurement (a certain outcome whatever the setting, otherwise the forced value or
+   the next drawn bit; `ρ ↦ Π_o ρ Π_o / tr(Π_o ρ)`; the register receives the outcome), classically controlled gates, and
+   measure-and-reset with the reset channel `|0⟩⟨0| ⊗ tr_c ρ`. -/
+
+open Graphiq.DMRef in
+/-- **The stabilizer backend yields exactly the textbook state and record** — every circuit, register mix, setting,
+    script (and it fails only where textbook semantics is undefined: a register index out of range). -/
+theorem stabilizer_backend_computes_textbook_state (ne np : Nat) (d : Det) (script : List Bool) (ops : List COp)
+    (hwf : ∀ op, op ∈ ops → op.WF np) :
+    refRunH ne np d script ops = (stabRun ne np d script ops).map (rstate (ne + np)) :=
+  refRun_eq_stab ne np d script ops hwf
+
+open Graphiq.DMRef Graphiq.DMH in
+/-- **The density-matrix backend yields exactly the textbook state and record** (same quantifier) -/
+theorem density_matrix_backend_computes_textbook_state (ne np : Nat) (d : Det) (script : List Bool) (ops : List COp)
+    (hwf : ∀ op, op ∈ ops → op.WF np) :
+    (dmRunH ne np d script ops).map ofH = refRunH ne np d script ops :=
+  refRun_eq_dm ne np d script ops hwf
+
+open Graphiq.DMRef Graphiq.Hilbert in
+/-- **A reset leaves the measured qubit in |0⟩**: whatever the state, after the reset of qubit `q` the projector
+    `|0⟩⟨0|_q` fixes it -/
+theorem reset_leaves_ket0 {n : Nat} (ρ : DMat n) (q : Nat) (hq : q < n) :
+    proj n (PRow.Zq q false) * refReset ρ q = refReset ρ q :=
+  refReset_in_ket0 ρ q hq
+
+open Graphiq.DMH Graphiq.Hilbert in
+/-- **State-vector view, global phase.**  The matrix both backends stand for after any circuit is `|ψ⟩⟨ψ|` for a unit
+    vector `ψ`, and `ψ` is determined up to a global phase: any two unit vectors with that projector satisfy `φ = c·ψ`,
+    `|c| = 1`.  (So comparing the backends "up to global phase" on state vectors is comparing these matrices exactly.) -/
+theorem compiled_state_is_a_state_vector_up_to_phase (ne np : Nat) (d : Det) (script : List Bool) (ops : List COp)
+    (hwf : ∀ op, op ∈ ops → op.WF np) (r : HState (ne + np)) (h : dmRunH ne np d script ops = some r) :
+    (∃ ψ : Bits (ne + np) → ℂ, r.ρ = outer ψ ∧ inner ψ ψ = 1) ∧
+    (∀ ψ φ : Bits (ne + np) → ℂ, r.ρ = outer ψ → r.ρ = outer φ → inner ψ ψ = 1 → inner φ φ = 1 →
+      ∃ c : ℂ, star c * c = 1 ∧ ∀ a, φ a = c * ψ a) := by
+  obtain ⟨h1, h2, h3⟩ := dm_result_is_pure_state ne np d script ops hwf r h
+  exact ⟨rank_one_of_projector_trace_one r.ρ h1 h2 h3,
+    fun ψ φ e1 e2 n1 n2 => outer_eq_phase ψ φ (e1.symm.trans e2) n1 n2⟩
+
+open Graphiq.DMH Graphiq.Hilbert in
+/-- **A reset leaves the measured qubit in |0⟩, in the compiled state**: after every measure-and-reset step of the
+    stabilizer compile loop (any input state of the run, any setting, any outcome, control = target allowed) the
+    projector `|0⟩⟨0|` of the control fixes the state of the new tableau — `+Z_c` is a stabilizer. -/
+theorem measure_and_reset_leaves_control_in_ket0 (np n : Nat) (d : Det) (s s' : RunState) (c t : QReg) (creg : Nat)
+    (hv : s.t.Valid) (hn : s.t.n = n) (hr : s.t.StabReal) (hs : stepOp np n d s (.mcr c t creg) = some s') :
+    proj n (PRow.Zq (qIndex np c) false) * rho n (STab.ofTab s'.t) = rho n (STab.ofTab s'.t) :=
+  DMRef.mcr_control_in_ket0 np n d s s' c t creg ⟨hv, hn, hr⟩ hs
+
+open Graphiq.Hilbert in
+/-- **"Operations are applied in an order consistent with the circuit" is enough**: operations of the compile loop on
+    disjoint qubits commute as state transformations, for every `n` and every state — two gates; a gate and a measurement
+    branch `ρ ↦ Π_o ρ Π_o` of a qubit the gate does not touch; two measurement branches (the general fact is
+    `Hilbert.local_conj_comm`: matrices in the algebras of disjoint sets of sites; it is the hypothesis `hcomm` of C13's
+    `compile_independent_of_topological_order`, for outcomes attached to the measurements). -/
+theorem operations_on_disjoint_qubits_commute (n : Nat) (ρ : DMat n) :
+    (∀ g h : Gate, g.WF n → h.WF n → (∀ q, gateSites g q → ¬ gateSites h q) →
+      gateMat n g * (gateMat n h * ρ * Matrix.conjTranspose (gateMat n h)) * Matrix.conjTranspose (gateMat n g)
+        = gateMat n h * (gateMat n g * ρ * Matrix.conjTranspose (gateMat n g)) * Matrix.conjTranspose (gateMat n h)) ∧
+    (∀ (g : Gate) (q : Nat) (o : Bool), g.WF n → q < n → ¬ gateSites g q →
+      gateMat n g * (projZ n q o * ρ * Matrix.conjTranspose (projZ n q o)) * Matrix.conjTranspose (gateMat n g)
+        = projZ n q o * (gateMat n g * ρ * Matrix.conjTranspose (gateMat n g)) * Matrix.conjTranspose (projZ n q o)) ∧
+    (∀ (q q' : Nat) (o o' : Bool), q < n → q' < n → q ≠ q' →
+      projZ n q o * (projZ n q' o' * ρ * Matrix.conjTranspose (projZ n q' o')) * Matrix.conjTranspose (projZ n q o)
+        = projZ n q' o' * (projZ n q o * ρ * Matrix.conjTranspose (projZ n q o)) * Matrix.conjTranspose (projZ n q' o')) :=
+  ⟨fun g h hg hh hd => gates_on_disjoint_qubits_commute n g h hg hh hd ρ,
+   fun g q o hg hq hd => gate_commutes_with_measurement_branch n g hg q hq o hd ρ,
+   fun q q' o o' hq hq' hne => measurement_branches_commute n q q' hq hq' hne o o' ρ⟩
+
+/-- non-vacuity: `H` on qubit 0 and `CNOT 1→2` on three qubits touch disjoint qubits -/
+example : (Gate.H 0).WF 3 ∧ (Gate.CNOT 1 2).WF 3 ∧ ∀ q, Hilbert.gateSites (Gate.H 0) q → ¬ Hilbert.gateSites (Gate.CNOT 1 2) q := by
+  refine ⟨by show 0 < 3; omega, ⟨by omega, by omega, by omega⟩, fun q h => ?_⟩
+  simp only [Hilbert.gateSites] at h ⊢
+  omega
+
+/-! ### Non-vacuity of `backends_agree`: a Bell pair, a Z-measurement and a classically controlled gate -/
+def bell : List COp :=
+  [.gate1 .H ⟨.e, 0⟩, .cnot ⟨.e, 0⟩ ⟨.p, 0⟩, .measz ⟨.p, 0⟩ 0, .ccx ⟨.e, 0⟩ ⟨.p, 0⟩ 1, .mcr ⟨.e, 0⟩ ⟨.p, 0⟩ 0]
+
+/-- the stabilizer loop returns on it: first measurement random (forced 1), the second and third deterministic -/
+example : (match stabRun 1 1 .one [] bell with
+    | some s => s.t.isSymplectic && s.outs == [true, true, true] && s.rand == [true, false, false]
+        && s.writes == [(0, true), (1, true), (0, true)]
+    | none => false) = true := by decide +kernel
+example : (match stabRun 1 1 .prob [false] bell with
+    | some s => s.outs == [false, false, false] && s.script == [] | none => false) = true := by decide +kernel
+
+theorem bell_wf : ∀ op, op ∈ bell → op.WF 1 := by
+  intro op h
+  simp only [bell, List.mem_cons, List.mem_nil_iff, or_false] at h
+  rcases h with h | h | h | h | h <;> subst h <;> simp [COp.WF, qIndex]
+
+theorem bell_inRange : ∀ op, op ∈ bell → DMH.COp.InRange 1 (1 + 1) op := by
+  intro op h
+  simp only [bell, List.mem_cons, List.mem_nil_iff, or_false] at h
+  rcases h with h | h | h | h | h <;> subst h <;> simp [DMH.COp.InRange, qIndex]
+
+/-- … and so does the density-matrix loop, with `ρ` of the same tableau and the same record (all three settings) -/
+example (d : Det) (script : List Bool) :
+    ∃ s, stabRun 1 1 d script bell = some s ∧ DMH.dmRunH 1 1 d script bell = some (DMH.hstate 2 s) := by
+  obtain ⟨s, hs⟩ := compile_returns 1 1 d script bell bell_inRange
+  exact ⟨s, hs, DMH.dmRunH_eq_stab 1 1 d script bell bell_wf s hs⟩
+
+/-! ### Non-vacuity of the tableau-level hypotheses (`Valid`, `StabReal`, `pivot = none / some`) -/
+
+/-- a deterministic measurement: |00⟩, qubit 0 (hypotheses of `dm_probabilities_exact` second part, `reset_channel_is_reset_z`) -/
+example : (Tab.ket0 2).Valid ∧ (Tab.ket0 2).StabReal ∧ 0 < (Tab.ket0 2).n ∧ (Tab.ket0 2).pivot 0 = none :=
+  ⟨Tab.ket0_valid 2, Hilbert.ket0_stabReal 2, by decide, by decide +kernel⟩
+
+/-- a random measurement: |+⟩|0⟩, qubit 0 (first part of `dm_probabilities_exact`, `forced_outcome_tolerates_rounding`) -/
+example : ((Tab.ket0 2).hGate 0).Valid ∧ ((Tab.ket0 2).hGate 0).StabReal ∧ ((Tab.ket0 2).hGate 0).pivot 0 = some 2 :=
+  ⟨Tab.hGate_valid _ 0 (by decide) (Tab.ket0_valid 2), Hilbert.gate_stabReal _ (Gate.H 0) (Hilbert.ket0_stabReal 2),
+   by decide +kernel⟩
+
+/-- `backends_agree_from` applies to it as an initial state: the Bell circuit from |+⟩|0⟩ -/
+example (d : Det) (script : List Bool) :
+    ∃ s, stabRunFrom ((Tab.ket0 2).hGate 0) 1 d script bell = some s ∧
+      DMH.dmRunFromH (Hilbert.rho 2 (STab.ofTab ((Tab.ket0 2).hGate 0))) 1 d script bell = some (DMH.hstate 2 s) := by
+  obtain ⟨s, hs⟩ := DMH.stabFold_total 1 2 d bell bell_inRange
+    { t := (Tab.ket0 2).hGate 0, writes := [], script := script, rand := [], outs := [] }
+  exact ⟨s, hs, backends_agree_from _ (Tab.hGate_valid _ 0 (by decide) (Tab.ket0_valid 2))
+    (Hilbert.gate_stabReal _ (Gate.H 0) (Hilbert.ket0_stabReal 2)) 1 d script bell bell_wf s hs⟩
+
+/-- the executable density-matrix model returns on it too, with the registers of the stabilizer run (forced 1) -/
+example : ∃ (s : RunState) (m : Mat), stabRun 1 1 .one [] bell = some s ∧
+    Noise.compileDM false 1 1 2 true (DMX.trOps bell)
+      = .ok { ρ := some m, creg := (finalRecord 2 s.writes).map fun b => if b then 1 else 0 } := by
+  obtain ⟨s, hs⟩ := compile_returns 1 1 .one [] bell bell_inRange
+  obtain ⟨m, e, _⟩ := executable_dm_model_agrees 1 1 2 true [] bell bell_wf s hs
+  exact ⟨s, m, hs, e⟩
+
+/-- … and the instance evaluated by the kernel: on the Bell circuit (forced 1) the executable `compileDM` returns exactly the
+    executable `stabilizerDensity` of the stabilizer run's tableau, and the registers `[1, 1]` -/
+example : (match Noise.compileDM false 1 1 2 true (DMX.trOps bell), stabRun 1 1 .one [] bell with
+    | .ok { ρ := some m, creg := creg }, some s => m.beq (DM.stabilizerDensity s.t).norm && creg == [1, 1]
+    | _, _ => false) = true := by decide +kernel
 
 end Graphiq.C01
